@@ -68,7 +68,9 @@ enum F {
     Or(Box<F>, Box<F>),
 }
 
-const ATTRS: [(&str, &str); 4] = [("D1", "a"), ("D1", "b"), ("D2", "a"), ("Dé", "ü x")];
+// one attribute has `*` at the start of its dimension and at the end of its name (legal: names are
+// /[^&|: ]+/), one has a multi-byte dimension and a name with an inner blank
+const ATTRS: [(&str, &str); 4] = [("D1", "a"), ("D1", "b"), ("*D2", "a*"), ("Dé", "ü x")];
 
 fn shapes(n: usize) -> Vec<F> {
     // all binary trees with n leaves; leaves numbered later
@@ -382,6 +384,54 @@ pub fn check(prop: &str, tier: &str) -> i32 {
         run.report(None, "C15.a", &format!("AccessPolicy::parse panics on {p:?}"), json!({"engine": "parsex", "input": p}));
     }
 
+    // (i') long inputs: every short core embedded in fillers of growing length, so that a
+    // multi-byte character sits at every byte offset of a long (valid or invalid) expression
+    let mut cores: Vec<String> = vec![String::new()];
+    for a in ALPHABET {
+        cores.push(a.to_string());
+        for b in ALPHABET {
+            cores.push(format!("{a}{b}"));
+            for c in ALPHABET {
+                cores.push(format!("{a}{b}{c}"));
+            }
+        }
+    }
+    let max_fill = if thorough { 70 } else { 36 };
+    let long_results = par_map(&cores, |_, core| {
+        let mut t = Totality { strings: 0, accepted: 0, panics: vec![] };
+        for filler in ["a", "é", "€", "😀"] {
+            let mut fill = String::new();
+            for _ in 0..=max_fill {
+                for s in [format!("{fill}{core}"), format!("{core}{fill}"), format!("({fill}{core}"), format!("D::{fill}{core} && (x::y || {fill}"), format!("{fill}::{fill}{core}")] {
+                    t.strings += 1;
+                    match try_parse(&s) {
+                        Ok(Some(_)) => t.accepted += 1,
+                        Ok(None) => {}
+                        Err(()) => {
+                            if t.panics.len() < 3 {
+                                t.panics.push(s);
+                            }
+                        }
+                    }
+                }
+                fill.push_str(filler);
+            }
+        }
+        t
+    });
+    let mut long_strings = 0u64;
+    for t in long_results {
+        long_strings += t.strings;
+        accepted += t.accepted;
+        panics.extend(t.panics);
+    }
+    panics.sort_by_key(|s| (s.chars().count(), s.clone()));
+    for p in panics.iter().take(3) {
+        if !run.violations.iter().any(|_| false) && run.violations.len() < 5 {
+            run.report(None, "C15.a", &format!("AccessPolicy::parse panics on {p:?}"), json!({"engine": "parsex", "input": p}));
+        }
+    }
+
     // (ii) faithfulness
     let n = if thorough { 6 } else { 5 };
     let mut jobs: Vec<F> = vec![];
@@ -417,9 +467,10 @@ pub fn check(prop: &str, tier: &str) -> i32 {
             }
         }
     }
-    run.set("evaluations", json!(strings + wide_strings + printed));
+    run.set("evaluations", json!(strings + wide_strings + long_strings + printed));
+    run.set("long_strings_enumerated", json!(long_strings));
     run.set("distinct_nontrivial", json!(accepted + printed));
-    run.set("rule", json!(format!("(i) every string of length <= {len} over the 10 symbols ( ) & | : space * a b é (é is 2 bytes), plus every string of length <= {wide_len} over the same symbols extended with a 3-byte and a 4-byte character, is parsed under catch_unwind and expanded to DNF when accepted; (ii) every boolean formula with <= {n} leaves over 4 attributes (one with a multi-byte dimension and a name containing a blank), every tree shape and operator assignment, printed in 5 styles (minimal, spaced, parenthesised everywhere, doubly parenthesised, padded) is parsed and compared with a reference reader (grouping first, AND before OR) on all 16 truth assignments, for the tree and for its DNF, and on attribute names. distinct_nontrivial = accepted strings + printed formulas")));
+    run.set("rule", json!(format!("(i) every string of length <= {len} over the 10 symbols ( ) & | : space * a b é (é is 2 bytes), plus every string of length <= {wide_len} over the same symbols extended with a 3-byte and a 4-byte character, is parsed under catch_unwind and expanded to DNF when accepted; (i') every string of length <= 3 over the 10 symbols embedded in 5 templates with fillers of 0..36 (thorough 70) repetitions of a 1-, 2-, 3- and 4-byte character (a multi-byte character at every byte offset of long valid and invalid expressions); (ii) every boolean formula with <= {n} leaves over 4 attributes (one with a multi-byte dimension and a name containing a blank), every tree shape and operator assignment, printed in 5 styles (minimal, spaced, parenthesised everywhere, doubly parenthesised, padded) is parsed and compared with a reference reader (grouping first, AND before OR) on all 16 truth assignments, for the tree and for its DNF, and on attribute names. distinct_nontrivial = accepted strings + printed formulas")));
     run.set("strings_enumerated", json!(strings));
     run.set("wide_strings_enumerated", json!(wide_strings));
     run.set("strings_accepted", json!(accepted));
